@@ -103,7 +103,11 @@ func cmdC15(seed uint64, tier, outdir string) {
 		}
 		if r.chance(1, 2) {
 			var sb strings.Builder
-			for j := 0; j < 3300+r.intn(600); j++ {
+			nw := 3300 + r.intn(600)
+			if r.chance(1, 2) {
+				nw = 14000 + r.intn(3000) // the serialised search set of a text this long exceeds a mebibyte
+			}
+			for j := 0; j < nw; j++ {
 				fmt.Fprintf(&sb, "word%d license terms ", r.intn(5000))
 			}
 			files = append(files, licFile{"Synthetic-Large.txt", []byte(sb.String())})
